@@ -9,10 +9,10 @@
      c04_tc_shape                the TC bit is set only in the Truncation arm, only over UDP, after
                                  clear_rrs: no answer/authority record and only the reserved pseudo-records
                                  counted; over TCP TC stays clear; the limit never changes while answering
-     c04_server_limit_steps_partial   the two places of the server model that fix the limit: the initial
-                                 limit (512 / 65535, capped by the buffer) and set_limit at the OPT
-                                 (PARTIAL: that no other step of the pre-scan touches the limit is part of
-                                 the srv correspondence, not of a theorem)
+     c04_limit_value             (server model, Model/Server.v) the limit of every response handle_message
+                                 yields: 65535 / 512 (capped by the buffer), or over UDP the CLASS of a
+                                 processed OPT clamped to [512, server size]
+     c04_udp_response_size       the two sides composed for UDP
    What is NOT proved and is decided per case by the extracted oracle [pair_check] (Spec/RespS.v) on
    the real server's two responses to every generated request: clauses (iii) "whenever the TCP
    response fits in the UDP limit the UDP response is identical" and (iv) "otherwise a TC-clear UDP
@@ -20,7 +20,7 @@
    (they need a limit-monotonicity theorem of the Writer, which C12 does not have), and the size/TC
    clauses on the finished octets.  c04_oracle_* say what a verdict PairOk means. *)
 From QV Require Import Base.Res Base.Octets Model.MsgWriter Model.ZoneTree Model.Query Model.QueryW
-  Proofs.MsgWriterInvP Proofs.QueryWP Spec.MsgWriterS Spec.RespS.
+  Proofs.MsgWriterInvP Proofs.QueryWP Proofs.ServerLimitP Spec.MsgWriterS Spec.RespS.
 From QV Require Model.Server Spec.NameRepr.
 
 Theorem c04_response_within_limit : forall negttl buf tcp id rd qname qtype qclass edns limit z len b,
@@ -43,19 +43,43 @@ Proof.
   destruct HP as (_ & Hl0 & _). split; [congruence|]. auto.
 Qed.
 
-Theorem c04_server_limit_steps_partial :
-  (forall cfg id opc rd w, Server.initial_resp cfg id opc rd = Ok w ->
-     Server.w_limit w = Nat.min (match Server.c_transport cfg with Server.Tcp => Server.tcp_limit | Server.Udp => Server.udp_limit end)
-                                (Server.c_buflen cfg)) /\
-  (forall w n w', Server.set_limit w n = Ok w' -> Server.w_limit w <= n ->
-     Server.w_limit w' = Nat.min n (Server.w_buflen w)).
+(* The server side (Model/Server.v, every path of handle_message that yields a response): the limit in
+   effect is 65535 over TCP and 512 over UDP (capped by the buffer) unless — over UDP — an OPT record of
+   the request was processed, in which case it is that OPT's CLASS field (the requestor's payload
+   size) clamped to [512, the server's configured size]. *)
+Theorem c04_limit_value : forall answer verify cfg req w,
+  Server.handle_message answer verify cfg req = Ok (Some w) ->
+  Server.w_buflen w = Server.c_buflen cfg /\
+  (Server.w_limit w = Nat.min (match Server.c_transport cfg with Server.Tcp => Server.tcp_limit | Server.Udp => Server.udp_limit end)
+                              (Server.c_buflen cfg) \/
+   (Server.c_transport cfg = Server.Udp /\ Server.w_edns w <> None /\
+    exists their, opt_class req their /\
+      Server.w_limit w = Nat.min (N.to_nat (N.max 512 (N.min their (Server.c_edns_size cfg)))) (Server.c_buflen cfg))).
+Proof. exact handle_message_limit. Qed.
+
+(* Composition of the two sides for UDP: the response the octet-level model produces under the limit and
+   EDNS state that the server model hands over is at most 512 octets long, or at most the requestor's
+   advertised size clamped to [512, server size] for an OPT of the request. *)
+Theorem c04_udp_response_size : forall answer verify cfg req w negttl buf id rd qn qt qc z len b,
+  Server.handle_message answer verify cfg req = Ok (Some w) ->
+  Server.c_transport cfg = Server.Udp -> N.to_nat 512 <= Server.c_buflen cfg ->
+  respond_w negttl buf false id rd qn qt qc (option_map fst (Server.w_edns w)) (Server.w_limit w) z = Some (len, b) ->
+  len <= N.to_nat 512 \/
+  exists their, opt_class req their /\ len <= N.to_nat (N.max 512 (N.min their (Server.c_edns_size cfg))).
 Proof.
-  split.
-  - intros cfg id opc rd w. unfold Server.initial_resp. destruct (_ <? _); [discriminate|].
-    intros H; inversion H; subst. reflexivity.
-  - intros w n w'. unfold Server.set_limit. destruct (Server.w_limit w <=? n) eqn:E.
-    + destruct (_ <? _); [discriminate|]. intros H _; inversion H; subst. reflexivity.
-    + apply Nat.leb_gt in E. intros _ H. lia.
+  intros answer verify cfg req w negttl buf id rd qn qt qc z len b Hm Tr Hbuf Hr.
+  destruct (handle_message_limit _ _ _ _ _ Hm) as (_ & L).
+  destruct (respond_w_limit _ _ _ _ _ _ _ _ _ _ _ _ _ Hr) as (_ & B2 & B3).
+  destruct L as [L|(_ & Ed & their & O & L)].
+  - left. unfold L0 in L. rewrite Tr in L. change Server.udp_limit with (N.to_nat 512) in L.
+    rewrite Nat.min_l in L by exact Hbuf.
+    destruct (Server.w_edns w) as [[sz up]|] eqn:E; cbn [option_map] in *.
+    + rewrite <- L. apply B3; auto; [discriminate|lia].
+    + apply B2; auto.
+  - right. exists their. split; [exact O|]. unfold negotiated in L.
+    destruct (Server.w_edns w) as [[sz up]|] eqn:E; [|congruence]. cbn [option_map] in *.
+    assert (H512 : N.to_nat 512 <= Server.w_limit w) by (rewrite L; apply Nat.min_glb; lia).
+    specialize (B3 eq_refl ltac:(discriminate) H512). rewrite L in B3. etransitivity; [exact B3|apply Nat.le_min_l].
 Qed.
 
 (* what the oracle's verdict means *)
@@ -122,6 +146,7 @@ Qed.
 
 Print Assumptions c04_response_within_limit.
 Print Assumptions c04_tc_shape.
-Print Assumptions c04_server_limit_steps_partial.
+Print Assumptions c04_limit_value.
+Print Assumptions c04_udp_response_size.
 Print Assumptions c04_oracle_tc_shape.
 Print Assumptions c04_oracle_sizes_and_identity.
